@@ -126,6 +126,7 @@ class Universe:
         self.ghost_preds = set()  # predicates that mention ghost parameters
         self.local_types = {}   # 'Class.method' -> {local name: type tag}
         self.method_hooks = {}  # 'Class.method' -> fn(it, self, args, kw, st, fr)
+        self.extra_subclasses = {}   # external class name -> [subclass names]
         self._iconsts = {}
 
     def field_tag(self, name):
@@ -180,7 +181,10 @@ class Universe:
         return self.class_ids[name]
 
     def isinstance_expr(self, ref, cname):
-        subs = self.repo.subclasses(cname) or [cname]
+        # classes outside the repository (e.g. sympy) may be declared by the
+        # property module with their subclass lists
+        subs = self.extra_subclasses.get(cname) or \
+            self.repo.subclasses(cname) or [cname]
         return z3.Or([TYPE_OF(ref) == self.class_id(s) for s in subs])
 
     def uf(self, name, argtags, rettag):
